@@ -20,6 +20,9 @@ requests (one token per argument; `-` is the empty field list)
   revg ng g            container group index of file position g in an adjoint file      -> INT
   nrec chiFlag [ords]  records of one ISOTXS nuclide                                     -> NAT
   offs [counts]        ISOTXS record offsets                                            -> [..]
+  scat ng [jup..] [jband..]   a whole scatter block with position-coded bands (row g, column c holds g*ng+c+1):
+                       the 7D record (scatFlatten) and the matrix rebuilt from it (scatUnflatten)  -> [..];[[..],..]
+  adjo [c..]           file order of an adjoint container's groups (adjointOrder)                -> [..]
   aparse HEXTEXT       Python float(text) for an E-format text (parseFloatText)          -> BITS64 | reject
   adom i INT | adom d BITS64   is the value inside the ASCII field's accepted domain (asciiInt.ok / asciiReal.ok) -> T|F
 FIELDS := field(,field)*   field := iINT | lINT | fNAT(32-bit pattern) | dNAT(64-bit pattern) | sLEN:HEX
@@ -251,6 +254,17 @@ def answer : List String → String
       | none => "bad-op"
   | ["adom", "d", n] => match parseNat? n with
       | some n => showBool (decide ((asciiRealM 8).ok n))
+      | none => "bad-op"
+  | ["scat", ng, jups, jbs] => match parseNat? ng, parseNatList? jups, parseNatList? jbs with
+      | some ng, some jups, some jbs =>
+        let table := jups.zip jbs
+        let rows : List (List Nat × Nat × Nat) := (List.range table.length).zip table |>.map (fun (g, jup, jb) =>
+          ((List.range ng).map (fun c => if jup - jb ≤ c ∧ c < jup then g * ng + c + 1 else 0), jup, jb))
+        let flat := scatFlatten rows
+        showList toString flat ++ ";" ++ showList (showList toString) (scatUnflatten 0 ng table flat)
+      | _, _, _ => "bad-op"
+  | ["adjo", c] => match parseIntList? c with
+      | some c => showList toString (adjointOrder c 0)
       | none => "bad-op"
   | ["aparse", h] => match fromHex h with
       | some t => match parseFloatText t with
